@@ -78,6 +78,16 @@ def enumerate_cases(tier):
                                    "entropy": rnd.randrange(2 ** 31 - 2)}
 
 
+    # a batch larger than 2^16 (Monte-Carlo sized): every row must still agree, also the last ones
+    for k, (sde_type, method) in enumerate((("ito", "euler"), ("stratonovich", "midpoint"))):
+        rnd = random.Random(seed * 6011 + k)
+        spec = {"sde_type": sde_type, "noise_type": "diagonal", "d": 2, "m": 2, "batch": 65536 + rnd.randint(1, 5000),
+                "hidden": 2, "seed": rnd.randrange(2 ** 31), "tdep": True, "fscale": 1.0, "gscale": 0.7, "dtype": "float32",
+                "rowdep": False}
+        yield {"spec": spec, "method": method, "levy": "none", "outs": [], "adaptive": False,
+               "time": {"t0": 0.0, "t1": 0.375, "dt": 0.125, "tdtype": "float32"}, "entropy": rnd.randrange(2 ** 31 - 2)}
+
+
 def run_case(case):
     import torchsde
     spec, tm = case["spec"], case["time"]
@@ -105,7 +115,7 @@ def run_case(case):
     steps = (tm["t1"] - tm["t0"]) / tm["dt"]
     labels = [f"{spec['sde_type']}/{spec['noise_type']}/{case['method']}", f"levy={case['levy']}",
               f"dtype={spec['dtype']}", "bit_identical" if torch.equal(a, b) else "differs_in_last_bits",
-              "adaptive" if case.get("adaptive") else "fixed"] + (["per_sample_conditioning"] if spec.get("rowdep") else []) + (["stored_diffusion_tensor"] if spec.get("gstored") else [])
+              "adaptive" if case.get("adaptive") else "fixed"] + (["batch>65535"] if spec["batch"] > 65535 else []) + (["per_sample_conditioning"] if spec.get("rowdep") else []) + (["stored_diffusion_tensor"] if spec.get("gstored") else [])
     fail = None
     if not (e <= 1e3 * eps) or not bool(torch.isfinite(a).all()):
         fail = Fail("special_vs_general", f"{spec['noise_type']} declaration and its general embedding disagree with "
